@@ -154,6 +154,8 @@ package main
 //@   ensures [C15] no_call_ignored: old(t.currentCall == nil) ==> t.currentCall == nil && t.lastID == old(t.lastID) && (forall s int :: outCount[s] == old(outCount[s]))
 //@   ensures [C15] stale_ignored:   old(t.currentCall != nil && t.currentCall.seq != msg.Note.SeqId) ==> t.currentCall == old(t.currentCall) && t.lastID == old(t.lastID) && (forall s int :: outCount[s] == old(outCount[s]))
 //@   assert at call messageHead [C02] only_the_requests_own_headers_are_edited: $1 == nil || (msg.Pub != nil && $1 == msg.Pub.Head)
+// (the establishment timer keeps running until the call is accepted: "ringing" must not stop it)
+//@   assert at call Stop [C15] timer_stopped_only_on_accept: msg.Note.Event == constCallEventAccept
 //@   assert at call saveAndBroadcastMessage [C15] accept_from_callee: len(t.currentCall.parties) == 1 && originatorUid != asUid && originator.sid != msg.sess.sid && $2 == originatorUid
 //@   assert at call maybeEndCallInProgress [C15] hangup_by_party: len(t.currentCall.parties) == 2 ==> (msg.sess.sid in t.currentCall.parties)
 
@@ -168,6 +170,9 @@ package main
 //@   requires [C15] t != nil && rowMax[t.name] <= t.lastID
 //@   modifies inferred
 //@   ensures [C15] ended: t.currentCall == nil
+// (a termination decided by the server is not attributed to a party: the closing message says "disconnected" or, on
+// timeout, "missed" - never "finished" or a party's hang-up)
+//@   assert at call maybeEndCallInProgress [C15] server_initiated: $1 == "" && $3 == callDidTimeout
 
 // Starting a call records exactly the inviting session as originator and the invitation's id.
 //@ func (t *Topic) handleCallInvite(msg *ClientComMessage, asUid types.Uid)
@@ -1040,7 +1045,7 @@ package main
 // is still attaching the session is not yet in its table and would never be told), exactly once, and then stops its
 // write loop.
 //@ func (s *Session) cleanUp(expired bool)
-//@   requires [C14] s != nil && s.inflightReqs != nil && s.bkgTimer != nil
+//@   requires [C14,assumed] s != nil && s.inflightReqs != nil && s.bkgTimer != nil
 //@   modifies *
 //@   assert at call unsubAll [C14] after_inflight_settled: called("Wait") == old(called("Wait")) + 1
 //@   ensures [C14] topics_told_once: called("unsubAll") == old(called("unsubAll")) + 1
